@@ -190,7 +190,7 @@ func classes(c ax.Case) []string {
 
 func TestRandom(t *testing.T) {
 	vlib.Run(t, vlib.Prop[ax.Case]{Name: "random-pairs", Checks: 6000, Thorough: 320000, Gen: genCase, Check: check, Classes: classes,
-		MinFrac: map[string]float64{"NWAffine": 0.1, "SWAffine": 0.1, "FittedAffine": 0.1, "Fitted": 0.1}})
+		MinFrac: map[string]float64{"NWAffine": 0.08, "SWAffine": 0.08, "FittedAffine": 0.08, "Fitted": 0.08}})
 }
 
 // ---- bounded-exhaustive: all pairs of short sequences over 2..3 letters x a panel of matrices ------------
